@@ -286,7 +286,24 @@ Lemma rl_len_le_closed m : rl_suffix_closed (rl_len_le m).
 Proof. intros pre ts. unfold rl_len_le. rewrite app_length. lia. Qed.
 
 Definition rgl_object_item (m : nat) (c : bool) : rg_p :=
-  rg_seq rg_name (rgl_colon_then true (rgl_value_f LP m c)).
+  rg_seq rg_name (rgl_colon_then false (rgl_value_f LP m c)).
+
+(* `if p.peek() == Some(k) { m } else { p.err() }` under a precondition on the remaining tokens *)
+Lemma rl_sim_peek_else_err_pre (P : list rg_token -> Prop) k (m : PM unit) q : k <> TkEof ->
+  rl_sim (fun ts => P ts /\ rg_starts (rg_is k) ts) m q -> rl_requires (rg_is k) q ->
+  rl_sim P (b <- g_peek_is k ;; if b then m else p_err) q.
+Proof.
+  intros Hne [Hg Hm] Hreq. split.
+  { apply rl_gen_bind; [apply rl_gen_peek_is|]. intros [|]; [exact Hg|apply rl_gen_err]. }
+  intros s u s' E [Hinv Ha] Ht HP. destruct (rl_inv_cur _ Hinv) as (t & Hc & Hi & _).
+  unfold p_bind in E. rewrite (peek_is_some k t s Hc) in E.
+  rewrite (rl_peek_is_view _ _ _ Hinv Hc Hne) in E.
+  destruct (rl_head_is (rg_is k) (rl_sigs s)) eqn:Hh.
+  - apply (Hm s u s' E (conj Hinv Ha) Ht). split; [exact HP|]. apply rl_starts_head. exact Hh.
+  - pose proof (rl_err_run _ _ _ (conj Hinv Ha) E) as Hd. split.
+    + intros He. contradiction.
+    + intros _ r Hq. rewrite (Hreq _ Hh) in Hq. discriminate.
+Qed.
 
 Lemma rl_sim_colon_value f (Hf : rl_value_spec f) c m :
   rl_sim (fun ts => rl_len_lt m ts /\ rg_starts (rg_is TkColon) ts)
@@ -325,7 +342,9 @@ Proof.
   unfold g_object_field_, rgl_object_item. apply rl_sim_node.
   eapply (rl_sim_bind_pre _ (rl_len_lt m)).
   - eapply rl_sim_weaken; [|apply rl_sim_name]. intros; exact I.
-  - intros _. apply (rl_sim_if_peek_pre (rl_len_lt m) TkColon); [discriminate|]. apply rl_sim_colon_value. exact Hf.
+  - intros _. cbn [rgl_colon_then].
+    apply (rl_sim_peek_else_err_pre (rl_len_lt m) TkColon); [discriminate|apply rl_sim_colon_value; exact Hf|].
+    intros [|t ts] H; [reflexivity|]. cbn [rl_head_is] in H. unfold rg_seq, rg_sat. rewrite H. reflexivity.
   - intros ts r [Hlen _] Hq. apply rg_progress_sat in Hq. unfold rl_len_le, rl_len_lt in *. lia.
 Qed.
 
